@@ -69,6 +69,11 @@ def run_evaluators(ctx, n):
         text = gen.render(prog, rng, "plain")
         envs = [gen.gen_env(prog, rng) for _ in range(5)]
         cases.append({"prog": prog, "text": text, "envs": envs})
+    # splitter fields named like the identifiers of the generated code itself (a local of the generated function must not capture them)
+    for nm in gen.host_names():
+        prog = gen.Program("e", gen.lit_str("s", quote='"'), [nm, "zz"], ("ret", [(gen.lit_str("a", quote='"'), "1"), (gen.lit_str("b", quote='"'), "2"), (gen.lit_str("c", quote='"'), "1")]),
+                           {nm: "any", "zz": "any"})
+        cases.append({"prog": prog, "text": gen.render(prog, rng, "plain"), "envs": [{nm: "unit%d" % k, "zz": k} for k in range(3)]})
     # sizes: many splitter fields (declared in a shuffled order, some declared twice), long names, long salts, long values
     for k in (7, 10, 11, 16, 17, 33, 64, 100):
         names = ["f%d" % i for i in range(k - 2)] + ["F_" + "x" * rng.choice([30, 79, 255]), "Z9"]
